@@ -588,6 +588,21 @@ def run_real_match(G, t: Tree, cands: list[str], pats, flags: int, exclude=None,
                 if api == 'globfilter':
                     ok = set(G.globfilter(cands, pats, flags=flags, **kw))
                     return 'ok', ''.join('1' if c in ok else '0' for c in cands)
+                if api in ('compiled', 'pickled', 'deepcopy', 'pickled-twice'):
+                    # a compiled matcher, as built / after a pickle or deepcopy round trip (added after seeded change C06h: the
+                    # reducer rebuilt the object with `follow` and `path` swapped, so the copy stopped link-testing `**`)
+                    import copy
+                    import pickle
+                    ex = kw.pop('exclude', None)
+                    mobj = G.compile(pats, flags=flags, exclude=ex) if ex is not None else G.compile(pats, flags=flags)
+                    if api == 'pickled':
+                        mobj = pickle.loads(pickle.dumps(mobj))
+                    elif api == 'pickled-twice':
+                        mobj = pickle.loads(pickle.dumps(pickle.loads(pickle.dumps(mobj))))
+                    elif api == 'deepcopy':
+                        mobj = copy.deepcopy(mobj)
+                    ok = set(mobj.filter(cands, **kw))
+                    return 'ok', ''.join('1' if c in ok else '0' for c in cands)
                 return 'ok', ''.join('1' if G.globmatch(c, pats, flags=flags, **kw) else '0' for c in cands)
         except common.CallTimeout:
             return 'timeout', ''
